@@ -52,6 +52,16 @@ Theorem C16_refuted_delay_uncapped :
   forallb (KF_C16_delay_uncapped capsD (model_obs capsD hist_uncapped)) (mon16 capsD (model_obs capsD hist_uncapped)) = true.
 Proof. vm_compute. split; reflexivity. Qed.
 
+(* C16-6: the delay was cut down to the CONNECT's session expiry (4); the DISCONNECT with Will Message
+   raises the expiry to 30, so the will is due at min(8, 30) = +8 but is published by the tick at +6 *)
+Definition hist_early : list op :=
+  [obsC; obsS; OConnect 1 1000 (cpW [97] false (Some 4) (Some (1, false, 8))) true [97]; ODisconnect 1 1000 4 (Some 30);
+   OTickWill 1006].
+Theorem C16_refuted_delay_fixed_at_connect :
+  map v_tag (mon16 capsD (model_obs capsD hist_early)) = [V16_early] /\
+  forallb (KF_C16_delay_fixed_at_connect capsD (model_obs capsD hist_early)) (mon16 capsD (model_obs capsD hist_early)) = true.
+Proof. vm_compute. split; reflexivity. Qed.
+
 (* C16-5: a pending delayed will is dropped by a clean-start connection (the session ended: it is due) *)
 Definition hist_clean : list op :=
   [obsC; obsS; OConnect 1 1000 (cpW [97] false (Some 20) (Some (1, false, 3))) true [97]; ONetClose 1 1000;
@@ -122,6 +132,7 @@ Proof. vm_compute. split; reflexivity. Qed.
 
 Print Assumptions C16_refuted_takeover_delayed.
 Print Assumptions C16_refuted_delay_uncapped.
+Print Assumptions C16_refuted_delay_fixed_at_connect.
 Print Assumptions C16_refuted_clean_reconnect.
 Print Assumptions C16_refuted_delayed_retain.
 Print Assumptions C16_content.
